@@ -305,6 +305,12 @@ def case_ns(ctx, cfg):
             # null space
             kdim = n - rk
             args = (Bf, kdim) if usedim else (Bf,)
+            if kdim == 0 and not usedim:
+                # trivial kernel: an (n, 0) basis
+                N, e = ctx.call(null_space, Bf)
+                ctx.trace()
+                if e is not None or N.shape[-2:] != (n, 0):
+                    ctx.fail(f"null_space:{m}x{n}:trivial-kernel" + (":complex" if gauss else ""), "null_space", {"A": B if B.ndim == 2 else B[0], "dim": None, "form": form}, [n, 0], e if e is not None else list(N.shape))
             if kdim > 0:
                 N, e = ctx.call(null_space, *args)
                 ctx.trace()
